@@ -374,6 +374,47 @@ func c03Run(c *Ctx) {
 		}
 	}
 
+	// (4b) evaluation path with allowed lists that contain duplicates, case duplicates and equivalent spellings
+	evalExprs := []string{"MIT", "Apache-2.0", "GPL-3.0-only AND ISC", "LicenseRef-a OR Zlib", "(MIT OR GPL-2.0+) AND LicenseRef-A", "GPL-2.0-only WITH Bison-exception-2.2"}
+	evalEntries := []string{"MIT", "mit", "MIT", "GPL-2.0+", "GPL-2.0-or-later", "LicenseRef-a", "LicenseRef-A", "ISC", "GPL-2.0-only WITH Bison-exception-2.2", "Apache-1.0+", "(MIT)"}
+	maxList := 3
+	if thorough {
+		maxList = 4
+	}
+	c.Bound("evaluation_lists", map[string]any{"expressions": evalExprs, "entries": evalEntries, "max_len": maxList})
+	for l := 1; l <= maxList; l++ {
+		var li int64
+		forSeqs(len(evalEntries), l, &li, func(i int64, s []int) bool {
+			if !c.Mine(i) || c.Expired() {
+				return !c.Expired()
+			}
+			list := make([]string, l)
+			for k, a := range s {
+				list[k] = evalEntries[a]
+			}
+			if !c.Begin(fmt.Sprintf("lists %q", list)) {
+				return true
+			}
+			c.Inc("states")
+			c.Inc("evaluations")
+			for _, e := range evalExprs {
+				c.Inc("transitions")
+				if r := Sat(e, list); r.Panic != "" {
+					key := "Satisfies | " + r.Panic
+					c.Report(Violation{Kind: "c03.call", Class: key, Key: key, Size: len(e) + 10*l, Msg: fmt.Sprintf("Satisfies panics on %q with allowed list %q: %s", e, list, r.Panic),
+						Case: mustJSON(c03Case{Fn: "Satisfies", Expr: e, List: list}), GoTest: goCall(c03Case{Fn: "Satisfies", Expr: e, List: list})})
+					c.Outcome("panic")
+				}
+			}
+			c.Inc("transitions")
+			if r := Val(list); r.Panic != "" {
+				key := "ValidateLicenses | " + r.Panic
+				c.Report(Violation{Kind: "c03.call", Class: key, Key: key, Size: 10 * l, Msg: fmt.Sprintf("ValidateLicenses panics on %q: %s", list, r.Panic), Case: mustJSON(c03Case{Fn: "ValidateLicenses", List: list})})
+			}
+			return true
+		})
+	}
+
 	// (5) slice shapes
 	reps := []string{"MIT", "", " ", "(", "MIT WITH", "DocumentRef-a", "MIT AND ISC", "GPL-2.0+", "LicenseRef-x", "\xff"}
 	var shapes [][]string
